@@ -3,6 +3,7 @@ package props
 import (
 	"fmt"
 	"math"
+	"reflect"
 	"runtime"
 	"sort"
 	"strings"
@@ -33,7 +34,54 @@ func (c10) cycCount(tier string) int      { return tierN(tier, 300, 12000) }
 func (p c10) NumCases(tier string) int    { return p.popCount(tier) + p.cycCount(tier) }
 func (c10) MinNontrivial(tier string) int { return tierN(tier, 200, 3000) }
 
+// arrays: an array-typed point ([1]I, [2]I) over candidates that are not equally ranked (one Primary, named
+// ones): whatever the container makes of such a point - it rejects it today - it makes the same of it in
+// every run and under every registration / enumeration order.
+func (p c10) arrays(c *core.Ctx) {
+	g := world.NewG(c.Rng)
+	g.AddNode(6, g.FreshName(0)) // T06: IA, Primary
+	for x := 0; x < 2+c.Rng.Intn(3); x++ {
+		g.AddNode([]int{0, 1, 12}[c.Rng.Intn(3)], g.FreshName(x+1))
+	}
+	size := 1 + c.Rng.Intn(2)
+	tag := []string{`wire:""`, `wire:",required=false"`}[c.Rng.Intn(2)]
+	ft := reflect.ArrayOf(size, world.TypeIA)
+	var sigs []string
+	for o := 0; o < 8; o++ {
+		g.ShuffleOrders()
+		h := world.NewHolder(world.BuildStruct([]world.FieldSpec{{Name: "Arr", Type: ft, Tag: tag}}))
+		r := world.Start(g.Sc, world.Options{Extra: []any{h}})
+		c.Count("starts", 1)
+		if abnormal(r.Outcome()) {
+			c.Fail("", fmt.Sprintf("array-typed point %s `%s`: %s", ft, tag, core.Short(r.OutcomeDetail(), 300)), failDetail(g.Sc, r, nil))
+			return
+		}
+		sig := r.Outcome() + ":"
+		av := reflect.ValueOf(h).Elem().Field(0)
+		for i := 0; i < av.Len(); i++ {
+			if n, ok := av.Index(i).Interface().(world.Node); ok {
+				sig += n.DisplayName() + ","
+			} else {
+				sig += "-,"
+			}
+		}
+		sigs = append(sigs, sig)
+	}
+	for i := 1; i < len(sigs); i++ {
+		if sigs[i] != sigs[0] {
+			c.Fail("", fmt.Sprintf("same scenario, different orders: array-typed point %s `%s` over unequally ranked candidates: run 0 -> %s, run %d -> %s", ft, tag, sigs[0], i, sigs[i]), failDetail(g.Sc, nil, map[string]any{"signatures": sigs}))
+			return
+		}
+	}
+	c.Count("family_arrays", 1)
+	c.Nontrivial("arrays|" + g.Sc.GraphSig() + tag + fmt.Sprint(size))
+}
+
 func (p c10) Run(c *core.Ctx) {
+	if c.Index%25 == 13 {
+		p.arrays(c)
+		return
+	}
 	orders := tierN(c.Tier, 12, 24)
 	var g *world.G
 	var plan map[string]world.SubPlan
